@@ -32,6 +32,52 @@ def run(ctx):
     a_list_scan(ctx, fn)
     d_priority(ctx, t)
     e_literal_text_verbatim(ctx)
+    f_positional_by_name(ctx)
+
+
+def f_positional_by_name(ctx):
+    """`match (bot say "Hi").Finished()` names a flow and gives its parameters by POSITION.  The events of a flow instance carry the parameter NAMES (and `$<n>` keys only for what
+    was passed positionally when that instance was started), so the reference event built for the match must have its `$<n>` keys translated to the declared parameter names -
+    otherwise "every parameter written in the statement equals the event's value" and the statement still does not advance, depending on the call style of an unrelated statement.
+    Decided: in get_event_from_element, on every path with op == "match" from the evaluation of the statement's arguments to the creation of the flow event, the loop that moves
+    `$<index>` to `<declared parameter>.name` is passed."""
+    t = ctx.tree.ast(SM)
+    fn = find_function(t, "get_event_from_element")
+    if fn is None:
+        raise AnalysisError("get_event_from_element not found", anchor=SM + "::get_event_from_element")
+    cfg = CFG(fn)
+    # the flow event of a by-name reference: <temp flow state>.get_event(name, ARGS)
+    calls = [c for c in walk_no_nested(fn) if isinstance(c, ast.Call) and isinstance(c.func, ast.Attribute) and c.func.attr == "get_event" and len(c.args) == 2
+             and "flow" in src(c.func.value)]
+    ctx.floor("C04.f.positional-by-name", SM, "flow events built for a by-name reference", len(calls), 1)
+    for c in calls:
+        argv = src(c.args[1])
+        cnode = cfg.node_of(c)
+        loops = [l for l in ast.walk(fn) if isinstance(l, ast.For) and isinstance(l.iter, ast.Call) and src(l.iter.func) == "enumerate" and l.iter.args
+                 and src(l.iter.args[0]).endswith(".parameters") and isinstance(l.target, ast.Tuple) and len(l.target.elts) == 2
+                 and any(isinstance(a, ast.Assign) and isinstance(a.targets[0], ast.Subscript) and src(a.targets[0].value) == argv
+                         and src(a.targets[0].slice) == "%s.name" % src(l.target.elts[1])
+                         and any(isinstance(j, ast.JoinedStr) and "$" in src(j) and src(l.target.elts[0]) in src(j) for j in ast.walk(a.value)) for a in ast.walk(l))]
+        lnodes = [cfg.node_of(l.iter) for l in loops]
+        # last evaluation of the arguments before the call
+        evals = [n for n in cfg.nodes if n.kind == "stmt" and isinstance(n.ast, ast.Assign) and src(n.ast.targets[0]) == argv and cnode in cfg.reachable([n])]
+        facts = {"element['op'] == 'match'": True, 'element["op"] == "match"': True, "element.op == 'match'": True}
+        ok = bool(loops) and bool(evals)
+        for e in evals:
+            seen, stack = set(), [e]
+            while stack:
+                x = stack.pop()
+                if x in seen or x in lnodes:
+                    continue
+                seen.add(x)
+                tv = truth(x.ast, facts) if x.kind == "test" and isinstance(x.ast, ast.expr) else None
+                stack.extend(m for m, lab in x.succ if not (tv is not None and lab in (True, False) and lab is not tv))
+            if cnode in seen and not any(e2 is not e and e2 in seen for e2 in evals):
+                ok = False
+        ctx.check("C04.f.positional-by-name", SM, "get_event_from_element", "positional parameters of a by-name flow event match", ok,
+                  "the positional keys of the statement are moved to the declared parameter names before the reference event is built" if ok else
+                  "the reference event of `match (flow \"x\").Finished()` keeps the keys `$0`, `$1`: it only matches instances that were STARTED with positional arguments - "
+                  "`bot say(text=\"Hi\")` finished does not advance `match (bot say \"Hi\").Finished()`", line=c.lineno)
 
 
 def e_literal_text_verbatim(ctx):
